@@ -3,7 +3,7 @@
 export GOFLAGS=-mod=mod GOPROXY=off GOSUMDB=off GOTOOLCHAIN=local PATH=/opt/veriftools/go1.26.8/bin:$PATH
 S=/var/tmp/verif-scratch/dev
 if [ ! -d $S/tree ] || [ -n "$FRESH" ]; then
-  rm -rf $S; mkdir -p $S/tree; rsync -a --exclude .git /repo/ $S/tree/
+  rm -rf $S; mkdir -p $S/tree; rsync -a --exclude .git ${VERIF_REPO:-/repo}/ $S/tree/
   (cd /verif/sim/cmd/instr && go build -o $S/instr .) || exit 2
   rsync -a --exclude cmd /verif/sim/ $S/tree/zz_verif/
   (cd $S/tree && go mod edit -require=pgregory.net/rapid@v1.3.0 -go=1.25 -toolchain=none && $S/instr -root $S/tree ./writer/... ./reader/... | tail -1) || exit 2
